@@ -38,5 +38,20 @@ for b in raw["bodies"]:
     if local_call or len(callers.get(p, ())) != 1:
         continue
     out.append(p)
+# getters of the crate's own traits (`fn min(&self) -> usize { self.min }` in `impl RepeatOperation for ..`): they
+# are reached through `dyn` in the reference tree (never spliced there); a statically resolved call - a trait default
+# method spliced into an impl - reads the field
+for b in raw["bodies"]:
+    p = strip_lt(b["path"])
+    if b["kind"] != "AssocFn" or not p.startswith("<") or b["span"]["exp"] or len(b["blocks"]) > 4 or b["argc"] != 1:
+        continue
+    tr = b.get("impl_trait") or ""
+    if not tr.startswith(("operation::RepeatOperation",)):
+        continue
+    if any(blk["term"]["k"] == "switch" for blk in b["blocks"]):
+        continue
+    if any(blk["term"]["k"] == "call" and blk["term"]["func"].get("k") == "const" and blk["term"]["func"]["fn"].get("res_local", blk["term"]["func"]["fn"].get("local")) and not strip_lt(blk["term"]["func"]["fn"].get("res", "")).endswith("as std::clone::Clone>::clone") for blk in b["blocks"]):
+        continue
+    out.append(p)
 json.dump(sorted(out), open(os.path.join(V, "rxv", "vocabulary_thin.json"), "w"), indent=1)
 print(sorted(out))
